@@ -260,10 +260,13 @@ class Session:
             return  # non-ASCII key observation: handled by observe_key_check
         # ---- encrypt (twice: equal plaintexts must give different outputs)
         outs = []
+        raws = []
         for rep in range(2):
             rec.clear()
             try:
-                out = bytes(c.encrypt(text))
+                raw = c.encrypt(text)
+                out = bytes(raw)
+                raws.append((raw, out))
             except Exception as e:
                 self.viol('encrypt-raised', f"encrypt raised {type(e).__name__}: {e} for a {len(text)}-character text "
                           f"(key {len(case['key'])}, nonce {case['nl']}, tag {case['ml']})", case)
@@ -300,6 +303,13 @@ class Session:
                           f"draws={','.join(str(d[0]) for d in draws)} key={hx(new['args'][0])} "
                           f"nonce={hx(new['kw'].get('nonce', b''))} mac_len={new['kw'].get('mac_len', '-')} "
                           f"pt={hx(pt)} out={hx(out)}", case)
+        # what encrypt() returned earlier must not change when the same object encrypts again (a frame may be queued,
+        # kept for a retry, or compared with the next one)
+        for k, (raw, copy) in enumerate(raws):
+            if bytes(raw) != copy:
+                self.viol('output-changed-by-later-call', f"the bytes returned by encrypt() call #{k} changed after a later encrypt() on the "
+                          f"same object (key {len(case['key'])}, nonce {case['nl']}, tag {case['ml']})", case)
+                return
         if outs[0] == outs[1]:
             self.viol('equal-outputs', "two encryptions of the same text gave identical bytes", case)
         out = outs[0]
